@@ -110,7 +110,7 @@ Definition rpc_portmap (s : rpc_st) (ip : ipaddr) (port : N) : bytes :=
   else if r_proc s =? 4 then
     [0; 0; 0; 0] ++ rpc_dump_entry s ip port 2 ++ rpc_dump_entry s ip port 3 ++
     rpc_dump_entry s ip port 4 ++ [0; 0; 0; 0]
-  else [0; 0; 0; 5].
+  else [0; 0; 0; 3].
 
 Definition rpc_build (s : rpc_st) (ip : ipaddr) (port : N) : bytes :=
   be32 (r_xid s) ++ [0; 0; 0; 1; 0; 0; 0; 0; 0; 0; 0; 0; 0; 0; 0; 0] ++
